@@ -46,7 +46,7 @@ def Q(m, e):
 # GEN families (constants of StrMathGen)
 
 FAMILIES = ["sub", "byte", "unary", "char", "findp", "findl", "fmtd", "fmtx", "fmtc", "fmts", "math1", "math2", "maxmin",
-            "fmtgrid", "ldexpw"]
+            "fmtgrid", "ldexpw", "powsp", "arith", "consts"]
 
 
 def gen_runs(tier):
@@ -64,7 +64,7 @@ def gen_runs(tier):
         "G2M": "12" if th else "8", "G2Neg": "3", "G2Hi": "2" if th else "1",
     }
     split = [["sub", "byte"], ["findp", "findl", "unary"],
-             ["char", "fmtd", "fmtx", "fmtc", "fmts", "math1", "math2", "maxmin"], ["fmtgrid", "ldexpw"]] if th else [FAMILIES]
+             ["char", "fmtd", "fmtx", "fmtc", "fmts", "math1", "math2", "maxmin"], ["fmtgrid", "ldexpw", "powsp", "arith", "consts"]] if th else [FAMILIES]
     out = []
     for fams in split:
         c = dict(consts)
@@ -140,6 +140,23 @@ def parse_format(fmt):
         out.append({"flags": flags, "width": w, "prec": p, "conv": conv, "text": list(fmt[i:j + 1])})
         i = j + 1
     return out, pct
+
+
+def _sp_class(t):
+    """class of a pow / operator argument: the special values by name, the rest by sign and integrality"""
+    if t[0] == "nz":
+        return "-0"
+    if t[0] == "inf":
+        return "+inf" if t[1] > 0 else "-inf"
+    if t[0] == "nan":
+        return "nan"
+    if t[0] == "n" and t[1] in (0, 1, -1):
+        return "+0" if t[1] == 0 else str(t[1])
+    if t[0] == "n":
+        return ("neg" if t[1] < 0 else "pos") + ("-odd" if t[1] % 2 else "-even")
+    if t[0] == "q":
+        return ("neg" if t[1] < 0 else "pos") + ("-fraction" if t[2] < 0 else "-even")
+    return t[0]
 
 
 def _num_sign_class(t):
@@ -269,6 +286,20 @@ def case_key(f, args, exp, obs):
                 return "C15:format:%+.0d:zero-loses-sign"
             return "C15:format:%%%s:flags=%s,w=%d,p=%d" % (c, "".join(sorted(fl)), bool(d["width"]), d["prec"] is not None)
         return "C15:format:%%%s" % c
+    if f in ("huge", "pi"):
+        return "C15:constant:math.%s" % f
+    if f == "mod" and exp[0] == "ok" and obs[0] == "ok" and not any(a[0] == "nz" for a in args):
+        return "C15:mod:differs-from-fmod"
+    if f in ("pow", "op^") and len(args) == 2 and (args[0][0] in ("nz", "inf", "nan") or args[1][0] in ("nz", "inf", "nan")
+                                                  or args[0] in (["n", 0], ["n", 1], ["n", -1]) or args[1] == ["n", 0]):
+        return "C15:%s:special-case:base=%s,exponent=%s" % ("pow" if f == "pow" else "operator^", _sp_class(args[0]), _sp_class(args[1]))
+    if f.startswith("op") or f in ("fmod", "mod", "floor", "ceil", "abs", "modf", "sqrt", "frexp", "ldexp", "max", "min"):
+        zin = any(a[0] == "nz" for a in args)
+        zout = (exp[0] == "ok" and any(v in (["nz"], ["n", 0]) for v in exp[1])) or (obs[0] == "ok" and any(v in (["nz"], ["n", 0]) for v in obs[1]))
+        if zin or (zout and exp[0] == "ok" and obs[0] == "ok" and [v if v != ["nz"] else ["n", 0] for v in exp[1]] == [v if v != ["nz"] else ["n", 0] for v in obs[1]]):
+            return "C15:%s:sign-of-zero" % ("operator" + f[2:] if f.startswith("op") else f)
+        if f.startswith("op"):
+            return "C15:operator%s:%s" % (f[2:], ",".join(_sp_class(a) for a in args[:2]))
     if f == "ldexp" and len(args) > 1 and args[1][0] == "n" and abs(args[1][1]) > 1024:
         return "C15:ldexp:exponent-beyond-1024"
     if f in ("ldexp", "frexp") and args and args[0][0] == "q" and args[0][2] < -1022:
@@ -299,12 +330,20 @@ def lua_literal(t):
         return "1/0" if t[1] > 0 else "-1/0"
     if t[0] == "nan":
         return "0/0"
+    if t[0] == "nz":
+        return "-0"
     if t[0] == "b":
         return "true" if t[1] else "false"
     return t[0]
 
 
 def lua_call(f, args):
+    if f.startswith("op"):
+        if f == "opneg":
+            return "(-(%s))" % ", ".join(lua_literal(a) for a in args)
+        return "(" + (" " + f[2:] + " ").join("(%s)" % lua_literal(a) for a in args) + ")"
+    if f in ("huge", "pi"):
+        return "math." + f
     lib = "string" if f in ("sub", "byte", "char", "len", "rep", "reverse", "upper", "lower", "find", "format") else "math"
     return "%s.%s(%s)" % (lib, f, ", ".join(lua_literal(a) for a in args))
 
@@ -383,7 +422,7 @@ def judge(recs, tag, stats, batch=300):
 
 def nontrivial(args):
     """a call is non-trivial when some argument is a non-empty string or a non-zero number"""
-    return any((a[0] == "s" and a[1]) or (a[0] in ("n", "q") and a[1] != 0) or a[0] == "inf" for a in args)
+    return any((a[0] == "s" and a[1]) or (a[0] in ("n", "q") and a[1] != 0) or a[0] in ("inf", "nz", "nan") for a in args)
 
 
 def chunks(xs, n):
@@ -584,6 +623,19 @@ def rand_call(rng):
         return ["char", [N(rng.choice([rng.randrange(256), rng.randrange(256), rng.randint(-300, 600)])) for _ in range(rng.randint(0, 6))]]
     if k < 0.75:
         return rand_format(rng)
+    if rng.random() < 0.25:
+        # signed zeros, infinities, NaN through the operators, pow, fmod / mod and the unary functions
+        sp = lambda: rng.choice([["nz"], N(0), ["inf", 1], ["inf", -1], ["nan"], N(1), N(-1), N(rng.randint(-9, 9)),
+                                 Q(rng.randint(-9, 9), -rng.randint(1, 3)), N(2), N(-3)])
+        f = rng.choice(["op+", "op-", "op*", "op/", "op%", "op^", "pow", "fmod", "mod", "opneg", "floor", "ceil", "modf", "sqrt", "abs",
+                        "max", "min"])
+        if f in ("opneg", "floor", "ceil", "modf", "sqrt", "abs"):
+            x = sp()
+            return [f, [x if x != ["nan"] or f == "opneg" else ["nz"]]]
+        a, b = sp(), sp()
+        if f in ("max", "min") and ["nan"] in (a, b):
+            a, b = ["nz"], N(0)
+        return [f, [a, b]]
     f = rng.choice(["floor", "ceil", "abs", "modf", "frexp", "sqrt", "fmod", "pow", "ldexp", "max", "min"])
     if f in ("floor", "ceil", "abs", "modf", "frexp"):
         x = rand_dyadic(rng)
